@@ -35,17 +35,18 @@ func (o *Obligation) Key() string { return o.Rule + "|" + o.Construct }
 
 // Report accumulates what a rule pack did.
 type Report struct {
-	Property     string
-	Obligations  []*Obligation
-	Analysed     map[string]int    // counters: functions, call sites, loops, lock operations, ...
-	Floors       map[string][2]int // name -> (found, required)
-	Notes        []string
-	Explanation  string
-	RuleText     string
-	Assumptions  []string
-	OutOfScope   []string
-	Tables       map[string]any
-	seenKeys     map[string]bool
+	Property    string
+	Obligations []*Obligation
+	Analysed    map[string]int    // counters: functions, call sites, loops, lock operations, ...
+	Floors      map[string][2]int // name -> (found, required)
+	Notes       []string
+	Explanation string
+	RuleText    string
+	Assumptions []string
+	OutOfScope  []string
+	Tables      map[string]any
+	seenKeys    map[string]bool
+	ReplayDir   string
 }
 
 func NewReport(prop string) *Report {
@@ -174,6 +175,9 @@ func (r *Report) Finish(verifDir, tier string, seed int64, start time.Time, know
 		}
 	}
 	replayDir := filepath.Join(verifDir, "replays")
+	if r.ReplayDir != "" {
+		replayDir = r.ReplayDir
+	}
 	_ = os.MkdirAll(replayDir, 0o755)
 	var vioOut []map[string]any
 	if !quiet {
@@ -234,22 +238,22 @@ func (r *Report) Finish(verifDir, tier string, seed int64, start time.Time, know
 		knownOut = append(knownOut, o.Key())
 	}
 	cov := map[string]any{
-		"explanation":         r.Explanation,
-		"obligations":         len(r.Obligations),
-		"discharged":          discharged,
-		"evaluations":         len(r.Obligations),
-		"distinct_nontrivial": len(distinct),
-		"rule":                r.RuleText,
-		"samples":             samples,
-		"analysed":            r.Analysed,
-		"floors":              floors,
-		"known_findings":      knownOut,
-		"violations_found":    vioOut,
-		"undecided":           len(out.Undecided),
-		"tables":              r.Tables,
-		"notes":               r.Notes,
+		"explanation":               r.Explanation,
+		"obligations":               len(r.Obligations),
+		"discharged":                discharged,
+		"evaluations":               len(r.Obligations),
+		"distinct_nontrivial":       len(distinct),
+		"rule":                      r.RuleText,
+		"samples":                   samples,
+		"analysed":                  r.Analysed,
+		"floors":                    floors,
+		"known_findings":            knownOut,
+		"violations_found":          vioOut,
+		"undecided":                 len(out.Undecided),
+		"tables":                    r.Tables,
+		"notes":                     r.Notes,
 		"out_of_scope_observations": r.OutOfScope,
-		"exhaustive":          false,
+		"exhaustive":                false,
 	}
 	for k, v := range extra {
 		cov[k] = v
